@@ -331,8 +331,11 @@ def classify(clause, ts, path, cell, rec):
     if clause == "C01.pytype":
         return f"type={tg}"  # the Python type of a column is a function of its declared type alone
     if path == "wp_opts":
-        o = cell["opts"]  # parallel / quote_identifiers are in the detail, not in the key
-        return f"type={tg},path=wp_opts,chunk={o['chunk']},index={o['index']}"
+        # whether every row arrives once and is counted once is a matter of the options, not of the column type
+        # (parallel / quote_identifiers are in the shape label of the replay, not in the key)
+        o = cell["opts"]
+        key = f"path=wp_opts,chunk={o['chunk']},index={o['index']}"
+        return key if clause in ("C01.accept", "C01.rows", "C01.wp_result") else f"type={tg},{key}"
     vals = [v for _, v in cell["rows"] if v is not None]
     value = vals[-1] if vals else None  # the value the shape label names (an identity value may precede it)
     vc = M.vclass(ts, cell["shape"], value, vals[:-1])
